@@ -166,6 +166,13 @@ class Renderer:
         elif k == "eval":
             f = _fn(self.spec, it["fn"])
             e = "dds.eval(" + self.sym(mod, it["fn"], f["module"], "from", imports) + ")"
+        elif k == "shadow":
+            # a construct that binds a local name equal to a module variable's name: the module variable is NOT read
+            v = it["var"]
+            e = {"listcomp": f"[{v} for {v} in range(3)][1]", "genexp": f"list({v} for {v} in range(3))[1]",
+                 "dictcomp": f"{{{v}: {v} for {v} in range(3)}}[1]", "setcomp": f"sorted({{{v} for {v} in range(3)}})[1]",
+                 "lambda_param": f"(lambda {v}: {v})(1)", "lambda_default": f"(lambda {v}=1: {v})()",
+                 "walrus_comp": f"[({v}_ := q) for q in range(3)][1]"}[it["how"]]
         elif k == "ext":
             if "fn" in it:
                 f = _fn(self.spec, it["fn"])
